@@ -53,7 +53,7 @@ func (e *Env) reportCtors(rule string) []*reportCtor {
 			e.C.Fail(rule, fname(fn), e.P.Pos(fn.Pos()), "result is not a pointer to a report struct")
 			continue
 		}
-		leaves, err := ir.Leaves(e.P.SSAFunc(fn), ir.LeafOptions{Forward: true, Effects: true})
+		leaves, err := ir.Leaves(e.P.SSAFunc(fn), ir.LeafOptions{Forward: true, Effects: true, Inline: e.inlineHelpers(e.newOptionsFunc())})
 		if err != nil || len(leaves) != 1 || len(leaves[0].Ret) != 1 {
 			e.C.Undecided(rule, fname(fn), e.P.Pos(fn.Pos()), fmt.Sprintf("constructor is not a single straight-line path (%v)", err))
 			continue
